@@ -188,6 +188,14 @@ func App(sort Sort, f string, args ...Term) Term {
 }
 
 func Arith(op string, a, b Term) Term {
+	if a.Sort == SInt && b.Sort == SInt {
+		if op == "+" && a.S == "0" {
+			return b
+		}
+		if (op == "+" || op == "-") && b.S == "0" {
+			return a
+		}
+	}
 	s := a.Sort
 	if a.Sort != b.Sort {
 		a, b = ToReal(a), ToReal(b)
@@ -227,10 +235,11 @@ type Universe struct {
 	dts   map[Sort]*DT
 	order []Sort
 	byTyp map[string]Sort // types.Type string -> sort
+	shifts map[Sort]bool  // element sorts for which shift_ functions are used
 }
 
 func NewUniverse() *Universe {
-	u := &Universe{dts: map[Sort]*DT{}, byTyp: map[string]Sort{}}
+	u := &Universe{dts: map[Sort]*DT{}, byTyp: map[string]Sort{}, shifts: map[Sort]bool{}}
 	// prelude sorts (declared in prelude text, registered here for selectors)
 	u.dts["SliceNode"] = &DT{Name: "SliceNode", Kind: "slice", Elem: SNode}
 	u.dts["MapNode"] = &DT{Name: "MapNode", Kind: "map", Elem: SNode, Key: SString}
@@ -242,11 +251,11 @@ func NewUniverse() *Universe {
 
 const prelude = `
 (declare-sort Hash8 0)
-(declare-datatypes ((SliceString 0)) (((mk_SliceString (arr_SliceString (Array Int String)) (off_SliceString Int) (len_SliceString Int)))))
+(declare-datatypes ((SliceString 0)) (((mk_SliceString (arr_SliceString (Array Int String)) (len_SliceString Int)))))
 (declare-datatypes ((Node 0) (SliceNode 0) (MapNode 0)) (
   ((n_nil) (n_void) (n_null) (n_bool (bv Bool)) (n_num (nv Real)) (n_str (sv String))
    (n_arr (kind Int) (elems SliceNode)) (n_obj (ov MapNode)))
-  ((mk_SliceNode (arr_SliceNode (Array Int Node)) (off_SliceNode Int) (len_SliceNode Int)))
+  ((mk_SliceNode (arr_SliceNode (Array Int Node)) (len_SliceNode Int)))
   ((mk_MapNode (dom_MapNode (Array String Bool)) (val_MapNode (Array String Node)) (card_MapNode Int)))))
 (declare-datatypes ((PathElem 0)) (
   ((pe_nil) (pe_key (pk String)) (pe_idx (pi Int)) (pe_allkeys) (pe_set) (pe_mset)
@@ -257,7 +266,7 @@ const prelude = `
 (declare-datatypes ((Any 0) (SliceAny 0) (MapAny 0)) (
   ((a_nil) (a_bool (ab Bool)) (a_int (ai Int)) (a_real (ar Real)) (a_str (astr String)) (a_node (an Node))
    (a_hash (ah Hash8)) (a_slice (asl SliceAny)) (a_map (am MapAny)) (a_pe (ape PathElem)) (a_other (aoid Int) (aotag Int)))
-  ((mk_SliceAny (arr_SliceAny (Array Int Any)) (off_SliceAny Int) (len_SliceAny Int)))
+  ((mk_SliceAny (arr_SliceAny (Array Int Any)) (len_SliceAny Int)))
   ((mk_MapAny (dom_MapAny (Array String Bool)) (val_MapAny (Array String Any)) (card_MapAny Int)))))
 `
 
@@ -275,8 +284,8 @@ func (u *Universe) SliceOf(elem Sort) Sort {
 		return name
 	}
 	dt := &DT{Name: name, Kind: "slice", Elem: elem}
-	dt.Decl = fmt.Sprintf("(declare-datatypes ((%s 0)) (((mk_%s (arr_%s (Array Int %s)) (off_%s Int) (len_%s Int)))))",
-		name, name, name, elem, name, name)
+	dt.Decl = fmt.Sprintf("(declare-datatypes ((%s 0)) (((mk_%s (arr_%s (Array Int %s)) (len_%s Int)))))",
+		name, name, name, elem, name)
 	u.dts[name] = dt
 	u.order = append(u.order, name)
 	return name
@@ -349,6 +358,17 @@ func (u *Universe) Decls() string {
 		b.WriteString(u.dts[s].Decl)
 		b.WriteByte('\n')
 	}
+	var es []string
+	for e := range u.shifts {
+		es = append(es, string(e))
+	}
+	sort.Strings(es)
+	for _, e := range es {
+		f := "shift_" + sanitize(e)
+		fmt.Fprintf(&b, "(declare-fun %s ((Array Int %s) Int) (Array Int %s))\n", f, e, e)
+		fmt.Fprintf(&b, "(assert (forall ((a (Array Int %s)) (o Int) (k Int)) (! (= (select (%s a o) k) (select a (+ k o))) :pattern ((select (%s a o) k)))))\n", e, f, f)
+		fmt.Fprintf(&b, "(assert (forall ((a (Array Int %s)) (o Int) (p Int)) (! (= (%s (%s a o) p) (%s a (+ o p))) :pattern ((%s (%s a o) p)))))\n", e, f, f, f, f, f)
+	}
 	return b.String()
 }
 
@@ -363,14 +383,28 @@ func (u *Universe) SArr(s Term) Term {
 	d := u.dts[s.Sort]
 	return App(Sort(fmt.Sprintf("(Array Int %s)", d.Elem)), "arr_"+string(s.Sort), s)
 }
-func (u *Universe) SOff(s Term) Term { return App(SInt, "off_"+string(s.Sort), s) }
 func (u *Universe) SLen(s Term) Term { return App(SInt, "len_"+string(s.Sort), s) }
-func (u *Universe) MkSlice(sort Sort, arr, off, ln Term) Term {
-	return App(sort, "mk_"+string(sort), arr, off, ln)
+func (u *Universe) MkSlice(sort Sort, arr, ln Term) Term {
+	return App(sort, "mk_"+string(sort), arr, ln)
 }
 func (u *Universe) SIndex(s Term, i Term) Term {
 	d := u.dts[s.Sort]
-	return App(d.Elem, "select", u.SArr(s), Arith("+", u.SOff(s), i))
+	return App(d.Elem, "select", u.SArr(s), i)
+}
+
+// Shift returns the array a viewed from offset o: shift(a,o)[k] = a[k+o].
+func (u *Universe) Shift(elem Sort, a, o Term) Term {
+	if o.S == "0" {
+		return a
+	}
+	u.shifts[elem] = true
+	return App(u.ArrSort(elem), "shift_"+sanitize(string(elem)), a, o)
+}
+
+// SubSlice is s[lo:hi] as a slice term.
+func (u *Universe) SubSlice(s Term, lo, hi Term) Term {
+	d := u.dts[s.Sort]
+	return u.MkSlice(s.Sort, u.Shift(d.Elem, u.SArr(s), lo), Arith("-", hi, lo))
 }
 func (u *Universe) ArrSort(elem Sort) Sort { return Sort(fmt.Sprintf("(Array Int %s)", elem)) }
 
@@ -425,7 +459,7 @@ func (u *Universe) Zero(s Sort) Term {
 	}
 	switch d.Kind {
 	case "slice":
-		return u.MkSlice(s, Term{fmt.Sprintf("((as const (Array Int %s)) %s)", d.Elem, u.Zero(d.Elem).S), u.ArrSort(d.Elem)}, IntLit(0), IntLit(0))
+		return u.MkSlice(s, Term{fmt.Sprintf("((as const (Array Int %s)) %s)", d.Elem, u.Zero(d.Elem).S), u.ArrSort(d.Elem)}, IntLit(0))
 	case "map":
 		return u.MkMap(s,
 			Term{fmt.Sprintf("((as const (Array %s Bool)) false)", d.Key), ""},
